@@ -12,6 +12,10 @@ impl Clone for BitField {
     #[verifier::external_body]
     fn clone(&self) -> (r: BitField) ensures r@ == self@ { unimplemented!() }
 }
+impl Default for BitField {
+    #[verifier::external_body]
+    fn default() -> (r: BitField) ensures r@ == vstd::set::Set::<u64>::empty() { unimplemented!() }
+}
 impl BitField {
     #[verifier::external_body]
     pub fn new() -> (r: BitField) ensures r@ == vstd::set::Set::<u64>::empty() { unimplemented!() }
